@@ -29,7 +29,8 @@ LEVEL_TEXT = ("Lean proof: (i) keys_restored — for every list of operands with
               "mergeAll_sound — in the merge of any number of dependency-closed graphs every key of every graph evaluates "
               "to what it evaluates to in its own graph, provided shared keys denote equal values; (iii) "
               "names_determine_values — equal layer names mean the same operation on observably equal arguments (from "
-              "C12); combined in compute_together_eq_alone. dask.compute on tuples of array/bag/delayed/dataframe programs "
+              "C12); combined in compute_together_eq_alone and, with C14's repack_unpack, in compute_spec (dask.compute(*args) is "
+              "args with every collection replaced by the value it computes to alone). dask.compute on tuples of array/bag/delayed/dataframe programs "
               "over near-identical inputs is compared with per-collection compute and NumPy/pandas on every run.")
 LEVEL_NOTE = ("inherits C12's trusted base (md5 injective, pickle atoms); the optimiser passes between merge and execution "
               "are validated end to end (C09/C10/C43), the graphs are abstract (task = dependencies + function).")
